@@ -39,9 +39,40 @@ type TV struct {
 	ET     byte // list/set
 	Elems  []*TV
 	Keys   []*TV // map keys (Elems = values)
+	Count  *uint32 // when set: written instead of the real element / entry count (corruption)
+	Off    int     // offset of this node in the last serialisation
+}
+
+func (v *TV) count(n int) uint32 {
+	if v.Count != nil {
+		return *v.Count
+	}
+	return uint32(n)
+}
+
+// containers returns every map / set / list node of the tree
+func (v *TV) containers(out *[]*TV) {
+	switch v.T {
+	case tSTRUCT:
+		for _, x := range v.Fields {
+			x.V.containers(out)
+		}
+	case tMAP:
+		*out = append(*out, v)
+		for i := range v.Keys {
+			v.Keys[i].containers(out)
+			v.Elems[i].containers(out)
+		}
+	case tSET, tLIST:
+		*out = append(*out, v)
+		for _, e := range v.Elems {
+			e.containers(out)
+		}
+	}
 }
 
 func (v *TV) ser(b []byte) []byte {
+	v.Off = len(b)
 	switch v.T {
 	case tBOOL, tBYTE:
 		return append(b, byte(v.N))
@@ -63,7 +94,7 @@ func (v *TV) ser(b []byte) []byte {
 		return append(b, 0)
 	case tMAP:
 		b = append(b, v.KT, v.VT)
-		b = binary.BigEndian.AppendUint32(b, uint32(len(v.Keys)))
+		b = binary.BigEndian.AppendUint32(b, v.count(len(v.Keys)))
 		for i := range v.Keys {
 			b = v.Keys[i].ser(b)
 			b = v.Elems[i].ser(b)
@@ -71,7 +102,7 @@ func (v *TV) ser(b []byte) []byte {
 		return b
 	case tSET, tLIST:
 		b = append(b, v.ET)
-		b = binary.BigEndian.AppendUint32(b, uint32(len(v.Elems)))
+		b = binary.BigEndian.AppendUint32(b, v.count(len(v.Elems)))
 		for _, e := range v.Elems {
 			b = e.ser(b)
 		}
